@@ -34,9 +34,9 @@ TRUSTED_BASE = [
     "hand-written model coq/C09/Model.v of BaseEngine._run / reset / LocalEngine._run_program / Operation.apply / "
     "Gate.apply / Measurement.apply / Gate.decompose, tied to /repo by exact correspondence on generated sessions "
     "(backend calls with arguments, outcome kinds, run_progs, samples, every RegRef value, every op.p list, lock flags)",
-    "the model has two switches (safe, fixed); which variant the current source implements is detected by two "
-    "probe sessions at the start of the correspondence and recorded in the evidence notes; every generated case is "
-    "then compared against that one variant",
+    "the model of record is the variant `current` (safe = fixed = linkok = true); three probe sessions detect which variant "
+    "the source implements; an old variant is reported as a regression counterexample, and every generated case is "
+    "compared against the detected variant so that further differences are reported separately",
     "harness: tools/props/c09.py, tools/vlib/sfgen.py; the recording backend class in c09.py; "
     "gaussian / fock / bosonic simulators used as oracles for 'same final state'",
     "Python semantics of aliasing (shared op.p list between an op and its .H copy) is modelled by hand",
@@ -44,17 +44,17 @@ TRUSTED_BASE = [
 ASSUMPTIONS = [
     "begin_circuit re-initialises the backend completely (binit does not depend on the previous backend state); checked on the real backends by the reset-vs-fresh search only",
     "operations with measured parameters are used only inside the program that owns the RegRef (Program.append enforces it)",
-    "the Coq model resolves q[k].par in the RegRefs of the program being run; in the current source q[k].par of all programs is one cached sympy object (known finding params:measured-parameter-retargeted), so correspondence sessions let one RegRef set own all measured parameters and the search covers the rest",
+    "the Coq model resolves q[k].par in the RegRefs of the program being run (true of the source since cf8f0c2 made measured parameters of different programs different symbols; the search checks it with the owner test)",
     "optimize=True together with measured parameters is left to C03 (the optimiser's known defect there moves such gates before the measurement)",
     "state comparisons use atol 1e-7, or 2e-5 when the case contains a (post-selected) measurement, whose simulation carries run-to-run noise of ~5e-7; states with NaN/inf count as an error outcome",
     "shots = 1; no New/Del inside segments (register bookkeeping is C08), no free parameters in the Coq model (they are covered by the search)",
     "storing measured values in RegRef.val, binding FreeParameter values and setting Program.locked are documented effects of run/compile and are not counted as 'altering the user's program'",
 ]
-MANIFEST_TEXT = ("C09_compositional_calls (full), C09_compositional_concat (full for the repaired copy-by-mode; for the "
-                 "code as written with the hypothesis that the earlier segment measures no mode but 0 — refuted otherwise), "
-                 "C09_reset_fresh / C09_reset_clears (full), C09_store_unchanged (full for try/finally Gate.apply; for the "
-                 "code as written on sessions where no call raised — refuted otherwise), C09_decompose_* (full); four _refuted witnesses "
-                 "(p[0] after exception, feed-forward across segments x2, re-running a linked copy) for the defects recorded in known_findings.d/C09.json")
+MANIFEST_TEXT = ("all theorems full, about the model of the current code: C09_compositional_calls, C09_compositional_concat (every "
+                 "program pair, feed-forward across segments included), C09_reset_fresh (every later run/reset session), "
+                 "C09_reset_clears, C09_store_unchanged (every session, exception paths included), C09_decompose_*; four "
+                 "C09_old_*_refuted witnesses about the behaviour before the fix commits; one known finding left (bosonic "
+                 "backend restarts from vacuum for every segment)")
 
 # ------------------------------------------------------------------------------------------
 # class table shared by model and implementation: id -> (name, kind, n_params, n_modes)
@@ -178,11 +178,6 @@ def gen_session(rng, malformed=False):
             regs.append(i)
             ns.append(n_common if (not malformed or rng.random() < 0.6) else rng.randint(1, 3))
     opsl, circ = [], []
-    # sympy caches Symbols by name, so q[k].par of two programs is ONE object (finding
-    # params:measured-parameter-retargeted, found by the search).  The engine model resolves a
-    # measured parameter in the running program's RegRefs, so sessions here let a single RegRef
-    # set own all measured parameters.
-    ffprog = rng.choice([i for i in range(K) if regs[i] == i])
     shared = []  # numeric ops usable by any program
     for _ in range(rng.randint(0, 3)):
         cls = rng.choice([0, 1, 2, 4, 7])
@@ -205,7 +200,7 @@ def gen_session(rng, malformed=False):
                 cls = rng.choice(avail)
                 if rng.random() < 0.35:
                     cls = rng.choice([c for c in (5, 6) if c in avail])
-                opsl.append({"cls": cls, "p": [gen_pexpr(rng, n, i == ffprog) for _ in range(CLASSES[cls][2])], "owner": i})
+                opsl.append({"cls": cls, "p": [gen_pexpr(rng, n, True) for _ in range(CLASSES[cls][2])], "owner": i})
                 j = len(opsl) - 1
                 own.append(j)
             cls = opsl[j]["cls"]
@@ -497,6 +492,16 @@ PROBE_LINK = {"n": [2, 2], "regs": [0, 0],
               "circ": [[[0, False, [0]], [1, False, [1]]], None], "hist": [["run", [1]]]}
 
 
+REGRESSIONS = [
+    ("regression:gate-apply-p0-not-restored",
+     "Gate.apply leaves p[0] negated in the user's op object when _apply raises (fixed by 0e1fbb4, now back)", PROBE_SAFE),
+    ("regression:engine-copies-measured-values-by-shot",
+     "a second program that uses a value measured by the first raises: the engine no longer hands the measured values over by mode (fixed by 711526c, now back)", PROBE_FIXED),
+    ("regression:linked-copy-deepcopies-source",
+     "running an already compiled program that uses a measured parameter raises AttributeError (fixed by 8c7ef76, now back)", PROBE_LINK),
+]
+
+
 def detect_variant():
     a = run_impl(PROBE_SAFE)[-1]
     safe = a["store"][0][0] == ["m", 0]
@@ -532,20 +537,22 @@ def predicate_on_impl(u, k):
                     if outs[-1][key] != o2[-1][key]:
                         return ("session:one-call-vs-successive-calls:" + key,
                                 "running the programs of each call one by one gives a different '%s': %s vs %s" % (key, outs[-1][key], o2[-1][key]))
-        else:
-            # (3) after a reset the rest of the session behaves as on a new engine (fresh objects)
-            rs = [i for i, c in enumerate(u["hist"]) if c[0] == "reset"]
-            if rs and rs[-1] < len(u["hist"]) - 1 and rs[-1] > 0:
-                v = copy.deepcopy(u)
-                v["hist"] = u["hist"][rs[-1] + 1:]
-                o2 = run_impl(v)
-                for key in ("err", "samples", "nrun", "vals"):
-                    if outs[-1][key] != o2[-1][key]:
-                        return ("session:reset-vs-fresh:" + key, "the calls after the last reset give a different '%s' than on a new engine with new programs: %s vs %s"
-                                % (key, outs[-1][key], o2[-1][key]))
-                t1, t2 = outs[-1]["trace"], o2[-1]["trace"]
-                if (t1 is None) != (t2 is None) or (t1 and t1[1][t1[1].index(["EvBegin", t1[1][0][1]]):] != t2[1]):
-                    return ("session:reset-vs-fresh:trace", "backend calls after the last reset differ from those on a new engine: %s vs %s" % (t1, t2))
+    # (3) after a reset the rest of the session behaves as on a new engine with new programs
+    #     (sessions in which nothing raised before that reset)
+    rs = [i for i, c in enumerate(u["hist"]) if c[0] == "reset"]
+    if rs and 0 < rs[-1] < len(u["hist"]) - 1 and all(o["err"] is None for o in outs[:rs[-1]]):
+        v = copy.deepcopy(u)
+        v["hist"] = u["hist"][rs[-1] + 1:]
+        o2 = run_impl(v)
+        for j, (a, b) in enumerate(zip(outs[rs[-1] + 1:], o2)):
+            for key in ("err", "samples", "nrun", "vals", "store"):
+                if a[key] != b[key]:
+                    return ("session:reset-vs-fresh:" + key,
+                            "call %d after the last reset gives a different '%s' than on a new engine with new programs: %s vs %s"
+                            % (j, key, a[key], b[key]))
+            t1, t2 = a["trace"], b["trace"]
+            if (t1 is None) != (t2 is None) or (t1 and t1[1][0][0] == "EvBegin" and t1 != t2 and a["nrun"] > 0):
+                return ("session:reset-vs-fresh:trace", "backend calls after the last reset differ from those on a new engine: %s vs %s" % (t1, t2))
     # (1) op.p lists after the call equal the ones before the session
     before = [[p for p in o["p"]] for o in u["ops"]]
     if outs[k]["store"] != before:
@@ -558,8 +565,15 @@ def predicate_on_impl(u, k):
 def correspondence(ctx):
     rng = ctx.rng
     variant = detect_variant()
-    ctx.notes.append("model variant matching the current source: safe=%s fixed=%s linkok=%s" % variant)
+    ctx.notes.append("model variant matching the current source: safe=%s fixed=%s linkok=%s (model of record: all True)" % variant)
     ctx.extra["variant"] = {"safe": variant[0], "fixed": variant[1], "linkok": variant[2]}
+    # The model of record is `current` (all switches true).  An old variant is a regression of a
+    # fixed defect: reported as a failing input of the property, never silently accepted.  The
+    # rest of the correspondence still runs against the detected variant so that any further
+    # difference is reported separately.
+    for ok, (sig, what, probe) in zip(variant, REGRESSIONS):
+        if not ok:
+            ctx.counterexample(sig, what, {"check": "variant-probe", "switch": sig, "session": probe})
     n_cases = ctx.budget(300, 9000)
     sessions = [PROBE_SAFE, PROBE_FIXED, PROBE_LINK]
     for f in sorted(glob.glob(os.path.join(coq.VERIF, "corpus", "C09-*.json"))):
@@ -753,7 +767,22 @@ def gen_compose(rng, backend):
         if un:
             seg2.append(ff_cmd(rng, n, rng.choice(un)))
             feat.add("unmeasured-use")
-    return {"n": n, "backend": backend, "segs": [seg1, seg2], "child": rng.random() < 0.6, "feat": sorted(feat)}
+    segs = [seg1, seg2]
+    if rng.random() < 0.3:
+        # a middle segment that measures nothing (or something else): values of the first must survive it
+        mid = s_random_cmds(rng, n, rng.randint(0, 2), backend, 2)
+        if measured and rng.random() < 0.4:
+            others = [m for m in range(n) if m not in measured]
+            if others:
+                mid.append(meas_cmd(rng, rng.choice(others)))
+        segs = [seg1, mid, seg2]
+        for c in seg2:
+            if "oid" in c[4]:
+                c[4]["oid"] = c[4]["oid"].replace("s1_", "s9_")
+            if "same_as" in c[4]:
+                c[4]["same_as"] = c[4]["same_as"].replace("s1_", "s9_")
+        feat.add("three-segments")
+    return {"n": n, "backend": backend, "segs": segs, "child": rng.random() < 0.6, "feat": sorted(feat)}
 
 
 def compose_patterns(spec):
@@ -761,14 +790,16 @@ def compose_patterns(spec):
     n, backend = spec["n"], spec["backend"]
     out = {}
 
-    def two():
+    def build_all():
         cache = {}
-        p1 = s_build(sf.Program(n), spec["segs"][0], cache, 0)
-        p2 = s_build(sf.Program(p1) if spec["child"] else sf.Program(n), spec["segs"][1], cache, 1)
-        return p1, p2
+        progs = []
+        for i, seg in enumerate(spec["segs"]):
+            base = sf.Program(n) if (i == 0 or not spec["child"]) else sf.Program(progs[-1])
+            progs.append(s_build(base, seg, cache, i))
+        return progs
 
-    p1, p2 = two()
-    out["retarget"] = not (owner_ok(p1) and owner_ok(p2))
+    progs = build_all()
+    out["retarget"] = not all(owner_ok(p) for p in progs)
     eng = new_engine(backend)
     begins = []
     orig_begin = eng.backend.begin_circuit
@@ -777,21 +808,23 @@ def compose_patterns(spec):
         begins.append(1)
         return orig_begin(*a, **k)
     eng.backend.begin_circuit = counting_begin
-    out["A"] = attempt(lambda: eng.run([p1, p2]), backend)
+    out["A"] = attempt(lambda: eng.run(progs), backend)
     out["begins"] = len(begins)
-    p1, p2 = two()
-    eng = new_engine(backend)
+    progs2 = build_all()
+    eng2 = new_engine(backend)
 
     def seq():
-        eng.run(p1)
-        return eng.run(p2)
+        r = None
+        for p in progs2:
+            r = eng2.run(p)
+        return r
     out["B"] = attempt(seq, backend)
     cache = {}
     pc = sf.Program(n)
-    s_build(pc, spec["segs"][0], cache, 0)
-    s_build(pc, spec["segs"][1], cache, 1)
-    eng = new_engine(backend)
-    out["C"] = attempt(lambda: eng.run(pc), backend)
+    for i, seg in enumerate(spec["segs"]):
+        s_build(pc, seg, cache, i)
+    eng3 = new_engine(backend)
+    out["C"] = attempt(lambda: eng3.run(pc), backend)
     return out
 
 
@@ -1145,7 +1178,7 @@ def search(ctx):
         d = {"check": "compose", "spec": spec}
         out = compose_patterns(spec)
         v = compose_verdict(spec, out)
-        ctx.case({"compose": spec, "A": brief(out["A"]), "C": brief(out["C"])}, nontrivial=len(spec["segs"][1]) > 0,
+        ctx.case({"compose": spec, "A": brief(out["A"]), "C": brief(out["C"])}, nontrivial=any(len(x) > 0 for x in spec["segs"][1:]),
                  bucket="compose:%s:%s" % (spec["backend"], "+".join(spec["feat"]) or "plain"))
         if v:
             ctx.counterexample(v[0], v[1], d)
@@ -1212,6 +1245,11 @@ def replay(ctx, data):
                 dd = compare_obs(m, i, u)
                 print("call %d: outcome impl=%s model=%s%s" % (k, i["err"], m["err"], "" if dd is None else "  DIFF in " + dd))
         return bad
+    if d.get("check") == "variant-probe":
+        v = detect_variant()
+        print("detected variant safe=%s fixed=%s linkok=%s" % v)
+        idx = [r[0] for r in REGRESSIONS].index(d["switch"])
+        return not v[idx]
     if d.get("check") == "decompose":
         before = len(ctx.issues)
         decompose_correspondence(ctx)
